@@ -1,15 +1,32 @@
 (* C17 — Linter flags exactly what it names; text rewriters keep meaning and converge.
-   Only statements, closed by [exact], with Print Assumptions.  The model is Model/Lint.v instantiated
-   with the tables regenerated from the toolchain and the source (Gen/LintTables.v, Inst/Inst_C17.v).
-   A text is the list of its decoded characters; [decode s] is the text of the byte string s and
-   [decode_wf] shows that every decoded text is well formed ([wft]), so each statement below that
-   assumes [wft t] holds for [t := decode s] of every byte string s. *)
+   Only statements, closed by [exact], with Print Assumptions.  The model is Model/Lint.v (the repaired rules: every
+   rule reads the lexical context from the whole-text scanner linter.LexMap) instantiated with the tables regenerated
+   from the toolchain and the source (Gen/LintTables.v, Inst/Inst_C17.v).  A text is the list of its decoded characters;
+   [decode s] is the text of the byte string s. *)
 From Coq Require Import List NArith Bool.
 From GV Require Import Model.Lint Proofs.LintP Gen.LintTables Inst.Inst_C17.
 Import ListNotations.
 
-Theorem C17_decode_wf : forall s, wft (decode s).
-Proof. exact decode_wf. Qed.
+(* the reading of a text: code up to the amount of white space and letter case, every character of a string literal,
+   quoted identifier or comment exactly (white space that ends a -- comment is layout) *)
+Definition lex_reading := reading space upper.
+
+(* ---- meaning: the FULL statement, for ALL texts: every rewriter keeps the reading ---- *)
+Theorem C17_l001_tokens_preserved : forall t, lex_reading (l001_fix t) = lex_reading t.
+Proof. exact (l001_keeps_reading space upper). Qed.
+Theorem C17_l002_tokens_preserved : forall t, lex_reading (l002_fix t) = lex_reading t.
+Proof. exact (l002_keeps_reading space upper). Qed.
+Theorem C17_l003_tokens_preserved : forall t, lex_reading (i_l003_fix t) = lex_reading t.
+Proof. exact (fun t => l003_keeps_reading space upper sp_nodelim 1 t (le_n 1)). Qed.
+Theorem C17_l010_tokens_preserved : forall t, lex_reading (l010_fix t) = lex_reading t.
+Proof. exact (l010_keeps_reading space upper). Qed.
+Theorem C17_l007_tokens_preserved : forall t, lex_reading (i_l007_fix t) = lex_reading t.
+Proof. exact (l007_keeps_reading letter digit space upper keywords_tab up_plain up_idem up_nows). Qed.
+Theorem C17_cli_tokens_preserved : forall t, lex_reading (i_cli_fix t) = lex_reading t.
+Proof. exact (cli_keeps_reading letter digit space upper keywords_tab up_plain up_idem up_nows sp_nodelim). Qed.
+
+Theorem C17_format_tokens_preserved : forall tab spaces final t, lex_reading (i_format tab spaces final t) = lex_reading t.
+Proof. exact (format_keeps_reading space upper sp_nodelim). Qed.
 
 (* ---- convergence: applying a fix twice is applying it once (all texts) ---- *)
 Theorem C17_l001_fix_idempotent : forall t, l001_fix (l001_fix t) = l001_fix t.
@@ -17,23 +34,25 @@ Proof. exact l001_fix_idempotent. Qed.
 Theorem C17_l002_fix_idempotent : forall t, l002_fix (l002_fix t) = l002_fix t.
 Proof. exact l002_fix_idempotent. Qed.
 Theorem C17_l003_fix_idempotent : forall t, i_l003_fix (i_l003_fix t) = i_l003_fix t.
-Proof. exact (fun t => l003_fix_idempotent_mx space 1 t (le_n 1)). Qed.
+Proof. exact (fun t => l003_fix_idempotent_mx space sp_nodelim 1 t (le_n 1)). Qed.
 Theorem C17_l010_fix_idempotent : forall t, l010_fix (l010_fix t) = l010_fix t.
 Proof. exact l010_fix_idempotent. Qed.
 Theorem C17_l007_fix_idempotent : forall t, i_l007_fix (i_l007_fix t) = i_l007_fix t.
-Proof. exact (l007_fix_idempotent_gen letter digit upper keywords_tab up_letter up_noquote up_idem nl45 nd45 up_nobt). Qed.
+Proof. exact (l007_fix_idempotent letter digit upper keywords_tab up_plain up_letter up_idem). Qed.
 
-(* the CLI's --auto-fix loop (L001, L002, L003, L010, L007 in sequence) and the language server's format action *)
+(* the output of the CLI loop (L001; L002; L003; L010; L007) is a fixed point of every one of the five fixers, so a second
+   run of  lint --auto-fix  changes nothing *)
+Theorem C17_cli_fixed_points : forall t,
+  l001_fix (i_cli_fix t) = i_cli_fix t /\ l002_fix (i_cli_fix t) = i_cli_fix t /\ i_l003_fix (i_cli_fix t) = i_cli_fix t /\
+  l010_fix (i_cli_fix t) = i_cli_fix t /\ i_l007_fix (i_cli_fix t) = i_cli_fix t.
+Proof. exact (cli_fixed_points letter digit space upper keywords_tab up_plain up_letter up_idem up_nows sp_nodelim (proj1 space_32_9)). Qed.
 Theorem C17_cli_fix_idempotent : forall t, i_cli_fix (i_cli_fix t) = i_cli_fix t.
-Proof.
-  exact (cli_fix_idempotent letter digit space upper keywords_tab up_letter up_noquote up_idem up_nows up_keynoquote nl45 nd45 up_key45
-           (proj1 space_32_9) (proj1 (proj2 space_32_9)) (proj2 (proj2 space_32_9)) up_nobt up_keynobt).
-Qed.
+Proof. exact (cli_fix_idempotent letter digit space upper keywords_tab up_plain up_letter up_idem up_nows sp_nodelim (proj1 space_32_9)). Qed.
+
+(* formatting a formatted document changes nothing (textDocument/formatting, every option setting) *)
 Theorem C17_format_idempotent : forall tab spaces final t,
   i_format tab spaces final (i_format tab spaces final t) = i_format tab spaces final t.
-Proof.
-  exact (format_idempotent space upper (proj1 space_32_9) (proj1 (proj2 space_32_9)) (proj2 (proj2 space_32_9))).
-Qed.
+Proof. exact (format_idempotent space upper sp_nodelim (proj1 space_32_9) (proj1 (proj2 space_32_9))). Qed.
 
 (* the same on bytes, for every text made of ASCII bytes (decode / encode are inverse there; for other texts the lifting
    needs decode (encode t) = t on rewriter outputs, which is exercised by the fixed-point oracle, not proved) *)
@@ -57,158 +76,87 @@ Proof.
 Qed.
 
 (* ---- re-lint: no violation of the rule remains after its fix ---- *)
-Theorem C17_l001_fix_clears : forall t, wft t -> l001_check (l001_fix t) = [].
+Theorem C17_l001_fix_clears : forall t, l001_check (l001_fix t) = [].
 Proof. exact l001_fix_clears. Qed.
 Theorem C17_l002_fix_clears : forall t, l002_check (l002_fix t) = [].
 Proof. exact l002_fix_clears. Qed.
-Theorem C17_l003_fix_clears : forall t, i_l003_check (i_l003_fix t) = [].
-Proof. exact (fun t => l003_fix_clears_mx space 1 t (le_n 1)). Qed.
-
 Theorem C17_l007_fix_clears : forall t, i_l007_check (i_l007_fix t) = [].
-Proof. exact (l007_fix_clears letter digit upper keywords_tab up_letter up_noquote up_idem nl45 nd45 up_nobt). Qed.
+Proof. exact (l007_fix_clears letter digit upper keywords_tab up_plain up_letter up_idem). Qed.
+(* L010 reports byte columns: for the texts [decode] produces (well-formed characters) *)
+Theorem C17_decode_wf : forall s, wft (decode s).
+Proof. exact decode_wf. Qed.
 Theorem C17_l010_fix_clears : forall t, wft t -> l010_check (l010_fix t) = [].
 Proof. exact l010_fix_clears. Qed.
+Theorem C17_l003_fix_clears : forall t, i_l003_check (i_l003_fix t) = [].
+Proof. exact (fun t => l003_fix_clears_mx space sp_nodelim 1 t (le_n 1)). Qed.
 
-(* ---- exact flagging, at an existing line and column ---- *)
-Theorem C17_l001_check_exact : forall t n col, wft t ->
+(* ---- exactness: a rule flags exactly the defect its name states, at an existing location ----
+   The lines are the classified lines [clines t] of the whole text: (starts in code?, characters with their class).
+   L001 trailing whitespace: the line ends in a space or tab that is code or the tail of a -- comment. *)
+Theorem C17_l001_check_exact : forall t n col,
   In (n, col) (l001_check t) <->
-  exists l, nth_error (split_nl t) (n - 1) = Some l /\ 1 <= n /\ ends_blank l /\ col = S (blen (trim_r is_blank l)).
+  exists fl, nth_error (clines t) (n - 1) = Some fl /\ 1 <= n /\ ends_tblank (snd fl) /\
+             col = S (blen (chars (trim_r tblank (snd fl)))).
 Proof. exact l001_check_exact. Qed.
-Theorem C17_l001_location : forall t n col, wft t -> In (n, col) (l001_check t) ->
-  exists l, nth_error (split_nl t) (n - 1) = Some l /\ 1 <= n <= length (split_nl t) /\ 1 <= col <= blen l.
+Theorem C17_l001_location : forall t n col, In (n, col) (l001_check t) ->
+  exists fl, nth_error (clines t) (n - 1) = Some fl /\ 1 <= n <= length (clines t) /\ 1 <= col <= S (blen (chars (snd fl))).
 Proof. exact l001_location. Qed.
-(* L002: flagged <-> the line mixes tabs and spaces in its indentation, or is purely indented in another style than
-   the first purely indented line of the text; column 1 of an existing non-empty line *)
+(* L002 mixed indentation: the code indentation of the line mixes tabs and spaces, or differs from the first pure style *)
 Theorem C17_l002_check_exact : forall t n col,
   In (n, col) (l002_check t) <->
-  col = 1 /\ 1 <= n /\ exists l, nth_error (split_nl t) (n - 1) = Some l /\ l002_defect 0%N (firstn (n - 1) (split_nl t)) l.
+  col = 1 /\ 1 <= n /\ exists fl, nth_error (clines t) (n - 1) = Some fl /\ l002_defect 0 (firstn (n - 1) (clines t)) (snd fl).
 Proof. exact l002_check_exact. Qed.
 Theorem C17_l002_location : forall t n col, In (n, col) (l002_check t) ->
-  1 <= n <= length (split_nl t) /\ col = 1 /\ exists l, nth_error (split_nl t) (n - 1) = Some l /\ l <> [].
+  1 <= n <= length (clines t) /\ col = 1 /\ exists fl, nth_error (clines t) (n - 1) = Some fl /\ take_l lblank (snd fl) <> [].
 Proof. exact l002_location. Qed.
-(* L003: flagged <-> line n is blank, the line before it (if any) is not, and more than one blank line follows in a row *)
+(* L003 consecutive blank lines: line n starts a run of more than one blank line of code *)
 Theorem C17_l003_check_exact : forall t n col,
   In (n, col) (i_l003_check t) <->
-  col = 1 /\ 1 <= n /\ startsG space 0 (split_nl t) (n - 1) /\ 1 < run_from space (split_nl t) (n - 1).
+  col = 1 /\ 1 <= n /\ startsG space 0 (clines t) (n - 1) /\ 1 < run_from space (clines t) (n - 1).
 Proof. exact (l003_check_exact space 1). Qed.
-Theorem C17_l003_location : forall t n col, In (n, col) (i_l003_check t) -> 1 <= n <= length (split_nl t) /\ col = 1.
+Theorem C17_l003_location : forall t n col, In (n, col) (i_l003_check t) -> 1 <= n <= length (clines t) /\ col = 1.
 Proof. exact (l003_location space 1). Qed.
+(* L007 keyword case: a code word (maximal run of letters, digits, '_' of code that starts with a letter or '_' where no word
+   is running) that spells a keyword in another case; the column is the byte column of its first character *)
+Theorem C17_l007_check_exact : forall t n col,
+  In (n, col) (i_l007_check t) <->
+  exists fl pre wd post, nth_error (clines t) (n - 1) = Some fl /\ 1 <= n /\ code_word letter digit (snd fl) pre wd post /\
+    word_viol upper keywords_tab (chars wd) = true /\ col = S (blen (chars pre)).
+Proof. exact (l007_check_exact letter digit upper keywords_tab). Qed.
+Theorem C17_l007_location : forall t n col, In (n, col) (i_l007_check t) ->
+  exists fl, nth_error (clines t) (n - 1) = Some fl /\ 1 <= n <= length (clines t) /\ 1 <= col <= S (blen (chars (snd fl))).
+Proof. exact (l007_location letter digit upper keywords_tab). Qed.
+(* L010 redundant whitespace: a maximal run of two or more code spaces (cspace_run) that is not indentation (some byte up
+   to the first space of the run is neither space nor tab); the column is the byte column of the first space of the run *)
+Theorem C17_l010_check_exact : forall t n col,
+  In (n, col) (l010_check t) <->
+  exists fl pre r post, nth_error (clines t) (n - 1) = Some fl /\ 1 <= n /\ cspace_run (snd fl) pre r post /\
+    indent_bytes (snd fl) col = false /\ col = S (blen (chars pre)).
+Proof. exact l010_check_exact. Qed.
+Theorem C17_l010_location : forall t n col, In (n, col) (l010_check t) ->
+  exists fl, nth_error (clines t) (n - 1) = Some fl /\ 1 <= n <= length (clines t) /\ 1 <= col <= S (blen (chars (snd fl))).
+Proof. exact l010_location. Qed.
+(* L005 long lines: a non-empty line that does not start with a comment opener and is longer than the limit, in bytes *)
 Theorem C17_l005_check_exact : forall mx t n col,
   In (n, col) (i_l005_check mx t) <->
-  exists l, nth_error (split_nl t) (n - 1) = Some l /\ 1 <= n /\ l <> [] /\
-            (starts2 45 45 (i_trim_space l) || starts2 47 42 (i_trim_space l)) = false /\
-            mx < blen l /\ col = S mx.
+  exists fl, nth_error (clines t) (n - 1) = Some fl /\ 1 <= n /\ chars (snd fl) <> [] /\
+            (starts2 45 45 (i_trim_space (chars (snd fl))) || starts2 47 42 (i_trim_space (chars (snd fl)))) = false /\
+            mx < blen (chars (snd fl)) /\ col = S mx.
 Proof. exact (l005_check_exact space). Qed.
 
-(* ---- conservation: whitespace rules change only whitespace, the keyword rule only letter case ---- *)
-Theorem C17_l001_ws_only : forall t, ink space (l001_fix t) = ink space t.
-Proof. exact (l001_ws_only space). Qed.
-Theorem C17_l002_ws_only : forall t, ink space (l002_fix t) = ink space t.
-Proof. exact (l002_ws_only space). Qed.
-Theorem C17_l003_ws_only : forall t, ink space (i_l003_fix t) = ink space t.
-Proof. exact (l003_ws_only space 1). Qed.
-Theorem C17_l010_ws_only : forall t, ink space (l010_fix t) = ink space t.
-Proof. exact (l010_ws_only space). Qed.
-Theorem C17_l007_case_only : forall t, map (fold upper) (i_l007_fix t) = map (fold upper) t.
-Proof. exact (l007_case_only letter digit upper keywords_tab up_idem). Qed.
-
-(* ---- meaning: read as code, a text keeps its sequence of character runs and separators under every rewriter
-        (nothing added, dropped or merged; only the amount of whitespace and letter case change) ---- *)
-Definition code_reading := cview space upper.
-Theorem C17_l001_keeps_code_reading : forall t, code_reading (l001_fix t) = code_reading t.
-Proof. exact (l001_cview space upper). Qed.
-Theorem C17_l002_keeps_code_reading : forall t, code_reading (l002_fix t) = code_reading t.
-Proof. exact (l002_cview space upper). Qed.
-Theorem C17_l003_keeps_code_reading : forall t, code_reading (i_l003_fix t) = code_reading t.
-Proof. exact (l003_cview space upper 1). Qed.
-Theorem C17_l010_keeps_code_reading : forall t, code_reading (l010_fix t) = code_reading t.
-Proof. exact (l010_cview space upper). Qed.
-Theorem C17_l007_keeps_code_reading : forall t, code_reading (i_l007_fix t) = code_reading t.
-Proof. exact (l007_cview space upper letter digit keywords_tab up_idem up_nows). Qed.
-Theorem C17_cli_keeps_code_reading : forall t, code_reading (i_cli_fix t) = code_reading t.
-Proof. exact (cli_cview letter digit space upper keywords_tab up_idem up_nows). Qed.
-Theorem C17_format_keeps_code_reading : forall tab spaces final t, code_reading (i_format tab spaces final t) = code_reading t.
-Proof. exact (format_cview space upper). Qed.
-
-
-(* ---- the full statement and what holds of it -----------------------------------------------------------
-   Full strength (the property): for every rewriter F in { L001, L002, L003, L010, L007 fix, the CLI loop,
-   formatSQL } and every text t,      lex_reading (F t) = lex_reading t
-   where lex_reading classifies every character by the SQL lexical rules and reads literals, quoted
-   identifiers and comments exactly, code up to whitespace amount and letter case.
-   The faithful model of the current code REFUTES it (witnesses below: the fixers are line based, their quote
-   state restarts on every line, comments / back quotes are not recognised).  What is proved:
-     * C17_*_keeps_code_reading (above): read as code, nothing is added, dropped or merged, for ALL texts;
-     * C17_*_tokens_preserved_partial: the full statement for texts without literals / comments
-       (hypothesis [plain], a boolean; the generator's "clean" stream without quotes satisfies it).
-   Missing for full strength: lexical-state-aware fixers in /repo (see known_findings.d/C17.json). *)
-Definition lex_reading := reading space upper.
-Definition is_plain := plain.
-
-Theorem C17_l001_tokens_preserved_partial : forall t, is_plain t = true -> is_plain (l001_fix t) = true ->
-  lex_reading (l001_fix t) = lex_reading t.
-Proof. exact (preserved_partial space upper l001_fix (l001_cview space upper)). Qed.
-Theorem C17_l002_tokens_preserved_partial : forall t, is_plain t = true -> is_plain (l002_fix t) = true ->
-  lex_reading (l002_fix t) = lex_reading t.
-Proof. exact (preserved_partial space upper l002_fix (l002_cview space upper)). Qed.
-Theorem C17_l003_tokens_preserved_partial : forall t, is_plain t = true -> is_plain (i_l003_fix t) = true ->
-  lex_reading (i_l003_fix t) = lex_reading t.
-Proof. exact (preserved_partial space upper i_l003_fix (l003_cview space upper 1)). Qed.
-Theorem C17_l010_tokens_preserved_partial : forall t, is_plain t = true -> is_plain (l010_fix t) = true ->
-  lex_reading (l010_fix t) = lex_reading t.
-Proof. exact (preserved_partial space upper l010_fix (l010_cview space upper)). Qed.
-Theorem C17_l007_tokens_preserved_partial : forall t, is_plain t = true -> is_plain (i_l007_fix t) = true ->
-  lex_reading (i_l007_fix t) = lex_reading t.
-Proof. exact (preserved_partial space upper i_l007_fix (l007_cview space upper letter digit keywords_tab up_idem up_nows)). Qed.
-Theorem C17_cli_tokens_preserved_partial : forall t, is_plain t = true -> is_plain (i_cli_fix t) = true ->
-  lex_reading (i_cli_fix t) = lex_reading t.
-Proof. exact (preserved_partial space upper i_cli_fix (cli_cview letter digit space upper keywords_tab up_idem up_nows)). Qed.
-Theorem C17_format_tokens_preserved_partial : forall tab spaces final t, is_plain t = true -> is_plain (i_format tab spaces final t) = true ->
-  lex_reading (i_format tab spaces final t) = lex_reading t.
-Proof. exact (fun tab spaces final => preserved_partial space upper (i_format tab spaces final) (format_cview space upper tab spaces final)). Qed.
-
-(* refutations of the full statement on the faithful model (witnesses evaluated in Inst/Inst_C17.v; each is replayed on
-   the implementation by lib/c17.py) *)
-(* trailing blanks inside a multi-line string literal are removed *)
-Theorem C17_l001_tokens_refuted : exists t, lex_reading (l001_fix t) <> lex_reading t.
-Proof. exact refuted_l001. Qed.
-(* a leading tab on the second line of a string literal becomes four spaces *)
-Theorem C17_l002_tokens_refuted : exists t, lex_reading (l002_fix t) <> lex_reading t.
-Proof. exact refuted_l002. Qed.
-(* a blank line inside a string literal is removed *)
-Theorem C17_l003_tokens_refuted : exists t, lex_reading (i_l003_fix t) <> lex_reading t.
-Proof. exact refuted_l003. Qed.
-(* repeated spaces on the second line of a string literal are collapsed *)
-Theorem C17_l010_string_tokens_refuted : exists t, lex_reading (l010_fix t) <> lex_reading t.
-Proof. exact refuted_l010_string. Qed.
-(* repeated spaces on the second line of a back-quoted identifier are collapsed *)
-Theorem C17_l010_backtick_tokens_refuted : exists t, lex_reading (l010_fix t) <> lex_reading t.
-Proof. exact refuted_l010_backtick. Qed.
-(* a keyword on the second line of a string literal is upper-cased *)
-Theorem C17_l007_string_tokens_refuted : exists t, lex_reading (i_l007_fix t) <> lex_reading t.
-Proof. exact refuted_l007_string. Qed.
-(* a keyword on the second line of a back-quoted identifier is upper-cased *)
-Theorem C17_l007_backtick_tokens_refuted : exists t, lex_reading (i_l007_fix t) <> lex_reading t.
-Proof. exact refuted_l007_backtick. Qed.
-(* repeated spaces inside a block comment are collapsed *)
-Theorem C17_l010_block_comment_tokens_refuted : exists t, lex_reading (l010_fix t) <> lex_reading t.
-Proof. exact refuted_l010_block_comment. Qed.
-(* a keyword inside a block comment is upper-cased *)
-Theorem C17_l007_block_comment_tokens_refuted : exists t, lex_reading (i_l007_fix t) <> lex_reading t.
-Proof. exact refuted_l007_block_comment. Qed.
-(* the CLI loop applies all of the above *)
-Theorem C17_cli_tokens_refuted : exists t, lex_reading (i_cli_fix t) <> lex_reading t.
-Proof. exact refuted_cli. Qed.
-(* formatSQL trims the lines of a multi-line string literal *)
-Theorem C17_format_tokens_refuted : exists t, lex_reading (i_format 2 true false t) <> lex_reading t.
-Proof. exact refuted_format. Qed.
-
-Print Assumptions C17_decode_wf.
+Print Assumptions C17_l001_tokens_preserved.
+Print Assumptions C17_l002_tokens_preserved.
+Print Assumptions C17_l003_tokens_preserved.
+Print Assumptions C17_l010_tokens_preserved.
+Print Assumptions C17_l007_tokens_preserved.
+Print Assumptions C17_cli_tokens_preserved.
+Print Assumptions C17_format_tokens_preserved.
 Print Assumptions C17_l001_fix_idempotent.
 Print Assumptions C17_l002_fix_idempotent.
 Print Assumptions C17_l003_fix_idempotent.
 Print Assumptions C17_l010_fix_idempotent.
 Print Assumptions C17_l007_fix_idempotent.
+Print Assumptions C17_cli_fixed_points.
 Print Assumptions C17_cli_fix_idempotent.
 Print Assumptions C17_format_idempotent.
 Print Assumptions C17_bytes_l001_idempotent.
@@ -222,6 +170,7 @@ Print Assumptions C17_l001_fix_clears.
 Print Assumptions C17_l002_fix_clears.
 Print Assumptions C17_l003_fix_clears.
 Print Assumptions C17_l007_fix_clears.
+Print Assumptions C17_decode_wf.
 Print Assumptions C17_l010_fix_clears.
 Print Assumptions C17_l001_check_exact.
 Print Assumptions C17_l001_location.
@@ -230,52 +179,21 @@ Print Assumptions C17_l002_location.
 Print Assumptions C17_l003_check_exact.
 Print Assumptions C17_l003_location.
 Print Assumptions C17_l005_check_exact.
-Print Assumptions C17_l001_ws_only.
-Print Assumptions C17_l002_ws_only.
-Print Assumptions C17_l003_ws_only.
-Print Assumptions C17_l010_ws_only.
-Print Assumptions C17_l007_case_only.
-Print Assumptions C17_l001_keeps_code_reading.
-Print Assumptions C17_l002_keeps_code_reading.
-Print Assumptions C17_l003_keeps_code_reading.
-Print Assumptions C17_l010_keeps_code_reading.
-Print Assumptions C17_l007_keeps_code_reading.
-Print Assumptions C17_cli_keeps_code_reading.
-Print Assumptions C17_format_keeps_code_reading.
-Print Assumptions C17_l001_tokens_refuted.
-Print Assumptions C17_l002_tokens_refuted.
-Print Assumptions C17_l003_tokens_refuted.
-Print Assumptions C17_l010_string_tokens_refuted.
-Print Assumptions C17_l010_backtick_tokens_refuted.
-Print Assumptions C17_l007_string_tokens_refuted.
-Print Assumptions C17_l007_backtick_tokens_refuted.
-Print Assumptions C17_l010_block_comment_tokens_refuted.
-Print Assumptions C17_l007_block_comment_tokens_refuted.
-Print Assumptions C17_cli_tokens_refuted.
-Print Assumptions C17_format_tokens_refuted.
-Print Assumptions C17_l001_tokens_preserved_partial.
-Print Assumptions C17_l002_tokens_preserved_partial.
-Print Assumptions C17_l003_tokens_preserved_partial.
-Print Assumptions C17_l010_tokens_preserved_partial.
-Print Assumptions C17_l007_tokens_preserved_partial.
-Print Assumptions C17_cli_tokens_preserved_partial.
-Print Assumptions C17_format_tokens_preserved_partial.
+Print Assumptions C17_l010_check_exact.
+Print Assumptions C17_l010_location.
+Print Assumptions C17_l007_check_exact.
+Print Assumptions C17_l007_location.
 
-(* ---- non-vacuity: the hypotheses are met by concrete, non-trivial texts; the fixers do change them ---- *)
+(* ---- non-vacuity: concrete, non-trivial texts; the fixers do change them, the literals are kept ---- *)
 Local Open Scope N_scope.
-Definition ex_bytes : list N :=   (* "select  1 \n\n\n\tfrom t\t" *)
-  [115;101;108;101;99;116;32;32;49;32;10;10;10;9;102;114;111;109;32;116;9].
-Example ex_plain : is_plain (decode ex_bytes) = true /\ is_plain (i_cli_fix (decode ex_bytes)) = true.
-Proof. vm_compute. split; reflexivity. Qed.
-Example ex_wf : wft (decode ex_bytes).
-Proof. apply decode_wf. Qed.
-Example ex_l001_flags : l001_check (decode ex_bytes) = [(1, 10); (4, 8)]%nat.
-Proof. vm_compute. reflexivity. Qed.
-Example ex_l001_changes : encode (l001_fix (decode ex_bytes)) <> ex_bytes.
-Proof. vm_compute. discriminate. Qed.
-Example ex_l007 : encode (i_l007_fix (decode ex_bytes)) =
-  [83;69;76;69;67;84;32;32;49;32;10;10;10;9;70;82;79;77;32;116;9].
-Proof. vm_compute. reflexivity. Qed.
+Definition ex_bytes : list N :=   (* "select  'a  \n\n\n\tb  ' \n\n\n\tfrom t\t" *)
+  [115;101;108;101;99;116;32;32;39;97;32;32;10;10;10;9;98;32;32;39;32;10;10;10;9;102;114;111;109;32;116;9].
 Example ex_cli : encode (i_cli_fix (decode ex_bytes)) =
-  [83;69;76;69;67;84;32;49;10;10;32;32;32;32;70;82;79;77;32;116].
+  [83;69;76;69;67;84;32;39;97;32;32;10;10;10;9;98;32;32;39;10;10;32;32;32;32;70;82;79;77;32;116].
+Proof. vm_compute. reflexivity. Qed.
+Example ex_l001_flags : l001_check (decode ex_bytes) = [(4, 6); (7, 8)]%nat.
+Proof. vm_compute. reflexivity. Qed.
+Example ex_l007_flags : i_l007_check (decode ex_bytes) = [(1, 1); (7, 2)]%nat.
+Proof. vm_compute. reflexivity. Qed.
+Example ex_l010_flags : l010_check (decode ex_bytes) = [(1, 7)]%nat.
 Proof. vm_compute. reflexivity. Qed.
